@@ -52,6 +52,20 @@ DATA_MNEMONICS = frozenset(
 )
 
 
+def preload():
+    """Import everything the workers need (ppci's arch modules, Hypothesis) in the parent, so that
+    forked workers do not each compile the sources again; architectures are not instantiated."""
+    import hypothesis  # noqa: F401
+    import hypothesis.strategies  # noqa: F401
+    import ppci.api  # noqa: F401
+    import ppci.arch.target_list  # noqa: F401
+    import ppci.binutils.outstream  # noqa: F401
+    import gc
+
+    gc.collect()
+    gc.freeze()  # keep the collector from touching (and thereby copying) the inherited heap
+
+
 class BuildError(Exception):
     """The description cannot be turned into an instance (harness-side problem or
     argument of a kind this generator does not model)."""
@@ -143,6 +157,33 @@ def registers_of(c):
     return tuple(c.all_registers())
 
 
+def _uniq_ids(regs):
+    seen = {}
+    out = []
+    for r in regs:
+        n = seen.get(r.name, 0) + 1
+        seen[r.name] = n
+        out.append(r.name if n == 1 else "%s#%d" % (r.name, n))
+    return out
+
+
+_REG_IDS = {}
+
+
+def reg_ids(c):
+    """Identifiers of the registers of a class, aligned with registers_of(c): the register name,
+    or "name#k" for the k-th register carrying an already used name."""
+    if c not in _REG_IDS:
+        regs = registers_of(c)
+        ids = _uniq_ids(regs)
+        _REG_IDS[c] = (tuple(ids), dict(zip(ids, regs)), {id(r): i for i, r in zip(ids, regs)})
+    return _REG_IDS[c]
+
+
+def reg_id_of(c, reg):
+    return reg_ids(c)[2].get(id(reg), reg.name)
+
+
 def _set_registers(target):
     """Registers a register-set operand ranges over (ARM / Thumb)."""
     from ppci.arch.arm.registers import ArmRegister
@@ -164,12 +205,10 @@ def _build_args(target, cls, argdescs):
         if k == "reg":
             if not (isinstance(d, list) and len(d) == 2 and d[0] == "r"):
                 raise BuildError("register expected, got %r" % (d,))
-            for r in registers_of(fa._cls):
-                if r.name == d[1]:
-                    out.append(r)
-                    break
-            else:
+            r = reg_ids(fa._cls)[1].get(d[1])
+            if r is None:
                 raise BuildError("no register %s in %s" % (d[1], fa._cls.__name__))
+            out.append(r)
         elif k == "int":
             if isinstance(d, bool) or not isinstance(d, int):
                 raise BuildError("int expected, got %r" % (d,))
@@ -190,7 +229,7 @@ def _build_args(target, cls, argdescs):
         elif k == "set":
             if not (isinstance(d, list) and len(d) == 2 and d[0] == "s"):
                 raise BuildError("register set expected, got %r" % (d,))
-            regs = {r.name: r for r in _set_registers(target)}
+            regs = dict(zip(_uniq_ids(_set_registers(target)), _set_registers(target)))
             try:
                 out.append(fa._cls(regs[n] for n in d[1]))
             except KeyError as e:
@@ -285,8 +324,8 @@ def _default_args(target, cls, ival, choice=0, force=(), depth=0):
     for i, fa in enumerate(cls.syntax.formal_arguments):
         k = kind_of(fa._cls)
         if k == "reg":
-            regs = registers_of(fa._cls)
-            out.append(["r", regs[1 if len(regs) > 1 else 0].name])
+            ids = reg_ids(fa._cls)[0]
+            out.append(["r", ids[1 if len(ids) > 1 else 0]])
         elif k == "int":
             out.append(ival)
         elif k == "str":
@@ -352,11 +391,11 @@ def value_cap(cls):
 def candidate_ints():
     vals = {0, 1, -1, 2, -2, 3, -3, 5, 6, 7, 10, 12, 20, 24, 100, -100}
     for k in range(1, 66):
-        for d in (-2, -1, 0, 1, 2):
+        for d in (-1, 0, 1):
             vals.add((1 << k) + d)
             vals.add(-(1 << k) + d)
-    for k in range(2, 34):  # aligned values just below a power of two
-        for a in (2, 4, 8, 16):
+    for k in range(2, 33):  # aligned values just inside a power of two
+        for a in (2, 4, 8):
             vals.add((1 << k) - a)
             vals.add(-(1 << k) + a)
     return sorted(vals)
@@ -430,8 +469,9 @@ def int_pool(accepted):
 # Hypothesis strategies
 
 
-def args_strategy(target, cid, cls=None, path_prefix=(), root=None):
-    """Strategy for the argument descriptions of one class (recursive for constructors)."""
+def args_strategy(target, cid, cls=None, path_prefix=(), exclude_ctors=frozenset()):
+    """Strategy for the argument descriptions of one class (recursive for constructors).
+    `exclude_ctors`: names of constructor alternatives that must not be drawn."""
     from hypothesis import strategies as st
 
     top = class_by_id(target, cid)
@@ -441,7 +481,7 @@ def args_strategy(target, cid, cls=None, path_prefix=(), root=None):
     for i, fa in enumerate(cls.syntax.formal_arguments):
         k = kind_of(fa._cls)
         if k == "reg":
-            names = [r.name for r in registers_of(fa._cls)]
+            names = list(reg_ids(fa._cls)[0])
             parts.append(st.sampled_from(names).map(lambda n: ["r", n]))
         elif k == "int":
             acc = pr.get(path_prefix + (i,), ())
@@ -460,10 +500,10 @@ def args_strategy(target, cid, cls=None, path_prefix=(), root=None):
         elif k == "ctor":
             alts = []
             for sub in ctor_options(fa._cls):
-                if not sub.syntax:
+                if not sub.syntax or sub.__name__ in exclude_ctors:
                     continue
                 alts.append(
-                    args_strategy(target, cid, sub, path_prefix + (i, sub.__name__)).map(
+                    args_strategy(target, cid, sub, path_prefix + (i, sub.__name__), exclude_ctors).map(
                         lambda a, n=sub.__name__: ["c", n, a]
                     )
                 )
@@ -471,7 +511,7 @@ def args_strategy(target, cid, cls=None, path_prefix=(), root=None):
                 raise BuildError("no constructor alternative")
             parts.append(st.one_of(alts))
         elif k == "set":
-            names = [r.name for r in _set_registers(target)]
+            names = _uniq_ids(_set_registers(target))
             parts.append(
                 st.lists(st.sampled_from(names), min_size=1, max_size=6, unique=True).map(
                     lambda l: ["s", sorted(l)]
@@ -524,3 +564,55 @@ def has_operands(desc):
 
 def key_of(desc):
     return (desc["target"], desc["cls"], repr(desc["args"]))
+
+
+# ---------------------------------------------------------------------------
+# object -> description (inverse of build; used to describe what the assembler produced)
+
+
+@functools.lru_cache(maxsize=None)
+def _cid_map(target):
+    return {cls: cid for cid, cls in _class_table(target)}
+
+
+def class_id_of(target, cls):
+    return _cid_map(target).get(cls)
+
+
+def describe_args(obj):
+    """Argument descriptions of an instruction / constructor object, or None when an operand
+    is of a kind this generator does not model."""
+    out = []
+    for fa in obj.syntax.formal_arguments:
+        k = kind_of(fa._cls)
+        v = getattr(obj, fa._name)
+        if k == "reg":
+            out.append(["r", reg_id_of(fa._cls, v)])
+        elif k in ("int", "str"):
+            out.append(v)
+        elif k == "ctor":
+            sub = describe_args(v)
+            if sub is None:
+                return None
+            out.append(["c", type(v).__name__, sub])
+        elif k == "set":
+            ids = dict((id(r), i) for i, r in zip(_uniq_ids(_set_registers("arm")), _set_registers("arm")))
+            out.append(["s", sorted(ids.get(id(r), r.name) for r in v)])
+        else:
+            return None
+    return out
+
+
+def describe(target, ins):
+    cid = class_id_of(target, type(ins))
+    if cid is None or not type(ins).syntax:
+        return None
+    args = describe_args(ins)
+    if args is None:
+        return None
+    return {"target": target, "cls": cid, "args": args}
+
+
+def syntax_literals(cls):
+    """The syntax with operands replaced by None and whitespace dropped."""
+    return tuple(None if not isinstance(e, str) else e for e in cls.syntax.syntax if not (isinstance(e, str) and e.isspace()))
